@@ -261,7 +261,46 @@ def metamorphic(seed, tier):
                                 'in_process': ref, 'workers': got})
         except Exception as e:
             wit.append({'kind': 'multi-error', 'error': f'{type(e).__name__} {e}'})
+    # 5. the id counter must not matter for UNNAMED devices either (default names embed the id; an upstream
+    #    device may be listed twice): same seed, id counters below / across powers of ten
+    try:
+        ref = None
+        for off in ([3, 997, 9997] if tier == "quick" else [3, 97, 997, 9997, 99997, 998, 9998]):
+            got = unnamed_merge(seed, off)
+            stats['unnamed_offset_runs'] = stats.get('unnamed_offset_runs', 0) + 1
+            evals += 1
+            if ref is None:
+                ref = got
+            elif got != ref:
+                wit.append({'kind': 'id-offset-unnamed', 'id_counter_start': off, 'reference_start': 3,
+                            'arrival_order_reference': ref[:12], 'arrival_order': got[:12]})
+                break
+    except Exception as e:
+        wit.append({'kind': 'unnamed-error', 'error': f'{type(e).__name__} {e}'})
     return evals, wit, stats
+
+
+def unnamed_merge(seed, offset):
+    """three unnamed feeders (default names carry the ids) merge into a slow machine, the first feeder listed
+    twice; returns which feeder (by creation order) each received part came from"""
+    import impl
+    impl.CTX = None
+    from simprocesd.model import System
+    from simprocesd.model.factory_floor import Source, Sink, PartProcessor
+    from simprocesd.model.factory_floor.asset import Asset
+    saved = Asset._id_counter
+    Asset._id_counter = offset
+    try:
+        random.seed(seed)
+        s = System()
+        feeders = [Source(cycle_time=1) for _ in range(3)]
+        m = PartProcessor(None, [feeders[0], feeders[0], feeders[1], feeders[2]], cycle_time=3)
+        k = Sink(None, [m], collect_parts=True)
+        s.simulate(40, print_summary=False)
+        first = {f: i for i, f in enumerate(feeders)}
+        return [first.get(p.routing_history[0], -1) for p in k.collected_parts]
+    finally:
+        Asset._id_counter = saved
 
 
 if __name__ == '__main__':
